@@ -2,7 +2,7 @@
 //! against a BTreeMap reference model.
 
 use crate::core::*;
-use crate::instr::{alloc_arm, alloc_disarm, closure_sees, SimKey};
+use crate::instr::{alloc_arm, alloc_disarm, closure_sees, NKey, SimKey};
 use crate::op::{Flow, Op, Step};
 use crate::rng::Rng;
 use crate::snap::{self, Slot, Snap};
@@ -28,7 +28,8 @@ pub trait KColl {
     fn leq_by(&mut self, t: i32, d: i64, f: &dyn Fn(SimKey) -> Ordering) -> i64;
     fn is_empty(&self) -> bool;
     fn clear(&mut self);
-    fn export(self: Box<Self>, t: i32) -> Vec<i64>;
+    /// exported values, the capacity of the vector the library returned, size of one element
+    fn export(self: Box<Self>, t: i32) -> (Vec<i64>, usize, usize);
     fn snapshot(&self) -> Option<Snap>;
     /// keys physically stored, in storage order (list) or key order (tree)
     fn stored(&self) -> Vec<SimKey>;
@@ -61,8 +62,10 @@ impl KColl for Tree {
     fn clear(&mut self) {
         KeyExpCollection::clear(self)
     }
-    fn export(self: Box<Self>, t: i32) -> Vec<i64> {
-        (*self).into_ordered_vec(t)
+    fn export(self: Box<Self>, t: i32) -> (Vec<i64>, usize, usize) {
+        let v = (*self).into_ordered_vec(t);
+        let c = v.capacity();
+        (v, c, std::mem::size_of::<i64>())
     }
     fn snapshot(&self) -> Option<Snap> {
         let v = self.verif_snapshot();
@@ -135,8 +138,10 @@ impl KColl for List {
     fn clear(&mut self) {
         KeyExpCollection::clear(self)
     }
-    fn export(self: Box<Self>, t: i32) -> Vec<i64> {
-        (*self).into_ordered_vec(t)
+    fn export(self: Box<Self>, t: i32) -> (Vec<i64>, usize, usize) {
+        let v = (*self).into_ordered_vec(t);
+        let c = v.capacity();
+        (v, c, std::mem::size_of::<i64>())
     }
     fn snapshot(&self) -> Option<Snap> {
         None
@@ -149,6 +154,144 @@ impl KColl for List {
     }
     fn fresh(&self, cap: usize) -> Box<dyn KColl> {
         Box::new(List::new(cap))
+    }
+}
+
+// ---- narrow instantiation: KeyExpTree<NKey, u8, u32> / KeyExpList<NKey, u8, u32> -------------
+// The world keeps thinking in SimKey / i32 time / i64 values; the adapters convert. Times and
+// expirations of a narrow run never exceed 255 (the world's `tmax`), values are insertion ids.
+
+type TreeN = KeyExpTree<NKey, u8, u32>;
+type ListN = KeyExpList<NKey, u8, u32>;
+
+const N_DEFAULT: u32 = u32::MAX - 7;
+
+#[inline]
+fn nk(k: SimKey) -> NKey {
+    NKey { key: k.key as i64, exp: k.exp.clamp(0, 255) as u8, id: k.id }
+}
+#[inline]
+fn sk(k: NKey) -> SimKey {
+    SimKey { key: k.key as i32, exp: k.exp as i32, id: k.id }
+}
+#[inline]
+fn nt(t: i32) -> u8 {
+    t.clamp(0, 255) as u8
+}
+#[inline]
+fn nv(v: i64) -> u32 {
+    if v == DEFAULT_VAL {
+        N_DEFAULT
+    } else {
+        v as u32
+    }
+}
+#[inline]
+fn wv(v: u32) -> i64 {
+    if v == N_DEFAULT {
+        DEFAULT_VAL
+    } else {
+        v as i64
+    }
+}
+
+macro_rules! narrow_common {
+    () => {
+        fn insert(&mut self, k: SimKey, v: i64, t: i32) {
+            KeyExpCollection::insert(self, nk(k), nv(v), nt(t))
+        }
+        fn get(&mut self, t: i32, k: SimKey) -> Option<i64> {
+            self.get_value(nt(t), nk(k)).map(wv)
+        }
+        fn less(&mut self, t: i32, d: i64, k: SimKey) -> i64 {
+            wv(self.first_less(nt(t), nv(d), nk(k)))
+        }
+        fn leq(&mut self, t: i32, d: i64, k: SimKey) -> i64 {
+            wv(self.first_less_or_equal(nt(t), nv(d), nk(k)))
+        }
+        fn leq_by(&mut self, t: i32, d: i64, f: &dyn Fn(SimKey) -> Ordering) -> i64 {
+            wv(self.first_less_or_equal_by(nt(t), nv(d), |k| f(sk(k))))
+        }
+        fn is_empty(&self) -> bool {
+            KeyExpCollection::is_empty(self)
+        }
+        fn clear(&mut self) {
+            KeyExpCollection::clear(self)
+        }
+        fn export(self: Box<Self>, t: i32) -> (Vec<i64>, usize, usize) {
+            let v = (*self).into_ordered_vec(nt(t));
+            let c = v.capacity();
+            (v.into_iter().map(wv).collect(), c, std::mem::size_of::<u32>())
+        }
+    };
+}
+
+impl KColl for TreeN {
+    fn name(&self) -> &'static str {
+        "KeyExpTree"
+    }
+    narrow_common!();
+    fn snapshot(&self) -> Option<Snap> {
+        let v = self.verif_snapshot();
+        Some(Snap {
+            root: v.root,
+            slots: v.slots.iter().map(|s| Slot { parent: s.parent, left: s.left, right: s.right, red: s.red, key: s.item.key as i32, aux: s.item.exp as i32 }).collect(),
+            unused: v.unused,
+            unused_cap: v.unused_capacity,
+        })
+    }
+    fn stored(&self) -> Vec<SimKey> {
+        let v = self.verif_snapshot();
+        let mut out = Vec::new();
+        let mut stack: Vec<(u32, bool)> = Vec::new();
+        if v.root != snap::E {
+            stack.push((v.root, false));
+        }
+        let mut guard = 0usize;
+        while let Some((i, done)) = stack.pop() {
+            guard += 1;
+            if guard > 4 * v.slots.len() + 8 || i as usize >= v.slots.len() {
+                break;
+            }
+            let s = &v.slots[i as usize];
+            if done {
+                out.push(sk(s.item));
+            } else {
+                if s.right != snap::E {
+                    stack.push((s.right, false));
+                }
+                stack.push((i, true));
+                if s.left != snap::E {
+                    stack.push((s.left, false));
+                }
+            }
+        }
+        out
+    }
+    fn min_exp(&self) -> Option<i32> {
+        None
+    }
+    fn fresh(&self, cap: usize) -> Box<dyn KColl> {
+        Box::new(TreeN::new(cap))
+    }
+}
+
+impl KColl for ListN {
+    fn name(&self) -> &'static str {
+        "KeyExpList"
+    }
+    narrow_common!();
+    fn snapshot(&self) -> Option<Snap> {
+        None
+    }
+    fn stored(&self) -> Vec<SimKey> {
+        self.verif_keys().into_iter().map(sk).collect()
+    }
+    fn min_exp(&self) -> Option<i32> {
+        Some(self.verif_min_exp() as i32)
+    }
+    fn fresh(&self, cap: usize) -> Box<dyn KColl> {
+        Box::new(ListN::new(cap))
     }
 }
 
@@ -226,6 +369,8 @@ pub struct KeyWorld {
     cleared_once: bool,
     /// entries physically stored in the first collection at the last structural check (reach only)
     last_n: usize,
+    /// end of the time line = "never" (i32::MAX, or 255 in the narrow instantiation)
+    tmax: i32,
     pub gen: KeyGen,
 }
 
@@ -244,20 +389,22 @@ impl KeyWorld {
     pub fn new(cfg: Cfg, rng: Option<&mut Rng>) -> KeyWorld {
         let mut colls: Vec<Option<Box<dyn KColl>>> = Vec::new();
         let mut names = Vec::new();
+        let narrow = cfg.key_ty == 1;
         if cfg.colls & C_TREE != 0 {
-            colls.push(Some(Box::new(Tree::new(cfg.cap))));
+            colls.push(Some(if narrow { Box::new(TreeN::new(cfg.cap)) as Box<dyn KColl> } else { Box::new(Tree::new(cfg.cap)) }));
             names.push("KeyExpTree");
         }
         if cfg.colls & C_LIST != 0 {
-            colls.push(Some(Box::new(List::new(cfg.cap))));
+            colls.push(Some(if narrow { Box::new(ListN::new(cfg.cap)) as Box<dyn KColl> } else { Box::new(List::new(cfg.cap)) }));
             names.push("KeyExpList");
         }
+        let tmax = if narrow { 255 } else { i32::MAX };
         let n = colls.len();
         let gen = match rng {
             Some(r) => Self::draw_gen(&cfg, r),
             None => Self::default_gen(),
         };
-        KeyWorld { now: cfg.t0, cfg, colls, twins: (0..n).map(|_| None).collect(), names, model: BTreeMap::new(), next_id: 1, peak: vec![0; n], cleared_once: false, last_n: 0, gen }
+        KeyWorld { now: cfg.t0.min(tmax), cfg, colls, twins: (0..n).map(|_| None).collect(), names, model: BTreeMap::new(), next_id: 1, peak: vec![0; n], cleared_once: false, last_n: 0, tmax, gen }
     }
 
     fn default_gen() -> KeyGen {
@@ -358,6 +505,15 @@ impl KeyWorld {
         }
         if cfg.has(O_TWIN) {
             g.forced_clear_at = Some(r.below(12) as usize);
+        }
+        if cfg.cap > 1_000_000 {
+            // a huge arena: a few insertions, a clear, then the rest of the short history
+            g.forced_clear_at = Some(2 + r.below(4) as usize);
+            g.fill_target = None;
+            g.forest = 0;
+            g.pulse = false;
+            g.fill_pct = 0;
+            g.w[W_INS] = 20;
         }
         g.export_at_end = cfg.has(O_KEXPORT) || cfg.has(O_CAP) || ((cfg.has(O_CRASH) || cfg.has(O_TWIN) || cfg.has(O_TORN)) && r.chance(1, 2));
         g
@@ -749,7 +905,7 @@ impl KeyWorld {
                     twin_answer = Some(v2);
                 }
             }
-            let before_snap = if ctx.collect_shapes && !self.cfg.has(O_CAP) && self.model.len() <= 2000 { self.colls[ci].as_ref().unwrap().snapshot() } else { None };
+            let before_snap = if ctx.collect_shapes && !self.cfg.has(O_CAP) && self.model.len() <= 2000 && self.cfg.cap <= 1_000_000 { self.colls[ci].as_ref().unwrap().snapshot() } else { None };
             let before_n = before_snap.as_ref().map(|s| s.slots.len().saturating_sub(s.unused.len() + 1));
             if let Some(s) = before_snap.as_ref() {
                 // which removal path will the first lazy removal of this query take? (reach measure)
@@ -890,7 +1046,7 @@ impl KeyWorld {
                 let (r, _) = call(ctx, &cfg, twin_name(name), "insert", "KIns", false, None, None, || tw.insert(key, val, t))?;
                 twin_ok = matches!(r, Called::Ok(_));
             }
-            if ctx.collect_shapes && !cfg.has(O_CAP) && self.model.len() <= 2000 {
+            if ctx.collect_shapes && !cfg.has(O_CAP) && self.model.len() <= 2000 && cfg.cap <= 1_000_000 {
                 if let Some(s) = self.colls[ci].as_ref().unwrap().snapshot() {
                     // the insertion first removes expired nodes on its path, so this is the
                     // repair case only when nothing on the path is expired; count it as reach
@@ -920,7 +1076,7 @@ impl KeyWorld {
     }
 
     fn do_export(&mut self, step: &Step, dt: i32, ctx: &mut RunCtx) -> Result<(), Stop> {
-        let t = self.now.saturating_add(dt.max(0));
+        let t = self.now.saturating_add(dt.max(0)).min(self.tmax);
         let expect: Vec<i64> = self.model.values().filter(|e| e.exp > t).map(|e| e.val).collect();
         if self.model.values().any(|e| e.exp == t) {
             ctx.stats.bump("export.t_equals_an_expiration");
@@ -939,7 +1095,7 @@ impl KeyWorld {
             if let Some(tw) = self.twins[ci].take() {
                 let (r2, _) = call(ctx, &cfg, twin_name(name), "into_ordered_vec", "KExport", false, None, None, || tw.export(t))?;
                 if let Called::Ok(v2) = r2 {
-                    twin_vec = Some(v2);
+                    twin_vec = Some(v2.0);
                 }
             }
             let stored = c.stored();
@@ -966,7 +1122,7 @@ impl KeyWorld {
                 ctx.cb_counts.push(n);
                 first = false;
             }
-            let v = match r {
+            let (v, vcap, vsize) = match r {
                 Called::Ok(v) => v,
                 Called::Injected => {
                     ctx.stats.bump("fault.callback_panic_fired");
@@ -990,18 +1146,18 @@ impl KeyWorld {
             if cfg.has(O_CAP) {
                 ctx.stats.oracle_evals += 1;
                 let bound = 4 * n_stored + 64;
-                if v.capacity() > bound {
+                if vcap > bound {
                     return Err(Stop::Fail(crate::op::Failure {
                         oracle: "capacity",
                         coll: name,
                         opkind: "KExport",
                         class: "budget",
                         tag: "capacity over 4n+64".into(),
-                        detail: format!("exported vector has capacity {} for {} stored entries (bound {})", v.capacity(), n_stored, bound),
+                        detail: format!("exported vector has capacity {} for {} stored entries (bound {})", vcap, n_stored, bound),
                     }));
                 }
                 let rep = rep.unwrap();
-                let budget = bound * std::mem::size_of::<i64>() + 65536;
+                let budget = bound * vsize + 65536;
                 if rep.max_request > budget {
                     return Err(Stop::Fail(crate::op::Failure {
                         oracle: "capacity",
@@ -1141,15 +1297,16 @@ impl KeyWorld {
         let t = self.now;
         if self.gen.forest == 1 {
             if self.gen.forest_short_only {
-                return t.saturating_add(1 + r.below(3) as i32);
+                return t.saturating_add(1 + r.below(3) as i32).min(self.tmax);
             }
             return match r.below(8) {
                 0 | 1 | 2 => t.saturating_add(1),
                 3 | 4 => t.saturating_add(2),
                 5 => t.saturating_add(3),
-                6 => t.saturating_add(1000),
-                _ => i32::MAX,
-            };
+                6 => t.saturating_add(1000).min(self.tmax),
+                _ => self.tmax,
+            }
+            .min(self.tmax);
         }
         let g = &self.gen;
         let h = match r.weighted(&g.horizon_w) {
@@ -1157,7 +1314,7 @@ impl KeyWorld {
             1 => 1,
             2 => r.range(2, g.horizon_short as i64) as i32,
             3 => r.range(2, g.horizon_long as i64) as i32,
-            4 => return i32::MAX,
+            4 => return self.tmax,
             _ => {
                 // coincide with an existing expiration if there is one
                 let live: Vec<i32> = self.model.values().filter(|e| e.exp >= t).map(|e| e.exp).take(8).collect();
@@ -1168,7 +1325,7 @@ impl KeyWorld {
                 }
             }
         };
-        t.saturating_add(h)
+        t.saturating_add(h).min(self.tmax)
     }
 
     fn pick_probe(&mut self, r: &mut Rng) -> i32 {
@@ -1210,7 +1367,7 @@ impl KeyWorld {
     }
 
     fn schedule_events(&mut self, k: i32, exp: i32) {
-        if exp == i32::MAX {
+        if exp == self.tmax {
             return;
         }
         let g = &mut self.gen;
@@ -1269,7 +1426,7 @@ impl World for KeyWorld {
     fn legal(&self, op: &Op) -> bool {
         match op {
             Op::Tick { dt } => *dt >= 0,
-            Op::KIns { k: _, exp } if *exp < self.now => false,
+            Op::KIns { k: _, exp } if *exp < self.now || *exp > self.tmax => false,
             Op::KIns { k, .. } => match self.model.get(k) {
                 Some(e) => e.exp <= self.now,
                 None => true,
@@ -1289,7 +1446,10 @@ impl World for KeyWorld {
         match step.op {
             Op::Tick { dt } => {
                 let old = self.now;
-                self.now = self.now.saturating_add(dt.max(0));
+                self.now = self.now.saturating_add(dt.max(0)).min(self.tmax);
+                if self.now == self.tmax && old != self.tmax {
+                    ctx.stats.bump("fault.clock_reaches_end_of_time_line");
+                }
                 ctx.stats.ticks += (self.now - old) as u64;
                 match dt {
                     0 => ctx.stats.bump("fault.clock_stall"),
@@ -1492,7 +1652,7 @@ impl World for KeyWorld {
                 W_LAND => {
                     // land exactly on (or just before) the next expiration
                     let t = self.now;
-                    let next = self.model.values().map(|e| e.exp).filter(|e| *e > t && *e != i32::MAX).min();
+                    let next = self.model.values().map(|e| e.exp).filter(|e| *e > t && *e != self.tmax).min();
                     if let Some(e) = next {
                         let dt = if r.chance(2, 3) { e - t } else { (e - t - 1).max(0) };
                         return Op::Tick { dt };
